@@ -363,12 +363,15 @@ PROPS['C05'] = {
                    'every interval both end-slope ratios f/secant are in [0,3] and vanish with the secant (lemma_c05_slope_ratios). lemma_hermite_monotone (units u_shape_ident + '
                    'u_shape) then proves, for EVERY real point x0 + t(x1-x0), t in [0,1], of a cubic satisfying the four Hermite conditions of the segment contract with those '
                    'ratios: the slope never has the sign opposite to the secant (monotone) and (p(x)-y0)(y1-p(x)) >= 0 (between the two ordinates) - the Fritsch-Carlson '
-                   'condition, machine-checked. Collinear knots: all secants equal s, every prescribed slope equals s, and the four Hermite conditions then force the line. '
+                   'condition, machine-checked. Composed in u_spline: lemma_c05_segment_monotone (any Segment<Poly3> satisfying the postcondition of `segment` with such slopes is monotone between its knots) and lemma_c05_interior/first/last_piece_monotone (with the Kruger / end-slope formulas the other contracts give). Collinear knots: all secants equal s, every prescribed slope equals s, and the four Hermite conditions then force the line. '
                    'Coincidence with the exact Kruger spline: the four Hermite conditions determine the cubic uniquely.',
     'assumptions': [FM_NOTE, FM_BITS, TY_NOTE, Z3W,
                     'two Z3 configurations are needed (identities: smt.arith.nl via tools/z3wrap.sh; inequalities: Verus own nonlinear options); the 8 identity lemmas are proved in unit '
                     'u_shape_ident and imported into u_shape with #[verifier::external_body] by mechanically copied signature (//@assume-lemma)',
-                    'the instantiation of lemma_hermite_monotone with the coefficients of the segment contract (a = rv(c[0]) ...) and the ratios of lemma_c05_slope_ratios is by matching definitions, not a checked lemma',
+                    'lemma_hermite_monotone is proved in u_shape (plain Verus nonlinear options) and imported into u_spline by mechanically copied signature together with the copied definitions of cub/dcub '
+                    '(//@assume-spec) and a checked-identical ratio_in (//@same-spec); there lemma_c05_segment_monotone instantiates it with the contract of `segment`, and '
+                    'lemma_c05_{interior,first,last}_piece_monotone with the slopes the contracts of f_dx / the end-slope formula give (all checked lemmas). Which knots and slopes '
+                    'constrained_spline passes to `segment` is the Kani wiring (bounded)',
                     'bounded (Kani wiring): as C04', 'UNCHECKED: floating-point rounding bound (exact arithmetic only)'],
 }
 LIN = ['src/linear.rs: linear (closure over the running forced knot)', 'src/linear.rs: incr_linear']
